@@ -79,7 +79,7 @@ def structural_bounds(a):
     k = a[0] if isinstance(a, tuple) and a else None
     if k == "byte":
         return 0, 255, 255
-    if k in ("len", "veclen", "cap"):
+    if k in ("len", "veclen", "cap", "initlen"):
         return 0, I64MAX, None
     if k == "and" and len(a) == 3 and isinstance(a[2], int):
         return 0, a[2], a[2]
@@ -121,6 +121,9 @@ def value_equations(I, st, v, selfkey, eqs, bytemap, depth=0, fty=None):
     elif isinstance(v, VVec):
         la = reg_atom(("veclen", selfkey), 0, I64MAX)
         eqs.append(Lin.atom(la) - v.len)
+    elif isinstance(v, VArray) and v.init is not None:
+        ia = reg_atom(("initlen", selfkey), 0, v.n if v.n is not None else I64MAX)
+        eqs.append(Lin.atom(ia) - v.init)
     elif isinstance(v, VAdt):
         adt = I.F.adts.get(v.path, {})
         if v.fields is not None and adt.get("kind") == "struct":
@@ -140,7 +143,7 @@ def is_self_atom(a):
 
     def walk(t, top=False):
         if isinstance(t, tuple):
-            if t and t[0] in ("s", "v", "veclen", "cap", "discr"):
+            if t and t[0] in ("s", "v", "veclen", "cap", "discr", "initlen"):
                 # ('s', key) etc: key must be SELF rooted
                 k = t[1]
                 if not (isinstance(k, tuple) and k and k[0] == SELF):
@@ -148,7 +151,7 @@ def is_self_atom(a):
                 return
             for x in t:
                 walk(x)
-    if a[0] in ("v", "veclen", "cap", "discr"):
+    if a[0] in ("v", "veclen", "cap", "discr", "initlen"):
         k = a[1]
         return isinstance(k, tuple) and bool(k) and k[0] == SELF
     walk(a)
